@@ -210,8 +210,22 @@ fn main() {
             }
             write(dir, "index", "json", &Value::Array(index).to_string());
         }
+        Some("cdriver") => {
+            // sccv cdriver <dir> <max number of arguments>: instantiate the repository's own C driver and io runtime
+            let dir = &args[2];
+            std::fs::create_dir_all(dir).unwrap();
+            std::env::set_current_dir(dir).unwrap();
+            let maxn: usize = args[3].parse().unwrap();
+            let mut out = vec![];
+            for n in 0..=maxn {
+                let p = driver::generate_c_driver(n, None);
+                out.push(json!({"nargs": n, "path": std::fs::canonicalize(p).unwrap()}));
+            }
+            let io = std::fs::canonicalize(driver::generate_io_runtime()).unwrap();
+            println!("{}", json!({"drivers": out, "io": io}));
+        }
         _ => {
-            eprintln!("usage: sccv config <dir> | pipeline <list.json> <outdir> [emit]");
+            eprintln!("usage: sccv config <dir> | pipeline <list.json> <outdir> [emit] | cdriver <dir> <maxargs>");
             std::process::exit(2);
         }
     }
